@@ -1873,3 +1873,12 @@ _SRAW_NOTE = (" Track sraw: the op words push_sraw / push_sraw_borrowed v<i> s<k
               "no_panic_valid, on the real code); bytes consumed past the first unfilled placeholder are a C03 failure as well as a C04 one.")
 for _pid in ("C03", "C04", "C05", "C10", "C20"):
     SPECS[_pid]["level_note"] += _SRAW_NOTE
+
+
+# C15 / C16: also on the harness build without debug assertions (profile `noassert`): code under
+# `#[cfg(not(debug_assertions))]` exists only there (seed C15-5 widened the release-only fast path of
+# `SlidingDeque::slide`); the space-bound oracle reads the real representation, not a debug assertion.
+for _p, _n in (("C15", "sdeque"), ("C16", "sorted")):
+    for _f in SPECS[_p]["families"]:
+        if _f["name"] == _n:
+            _f["noassert"] = True
